@@ -1,6 +1,6 @@
 SPECIFICATION GSpec
 CONSTANTS
-  MaxEdits = 5
+  MaxEdits = 3
 INVARIANTS
   EmitCase
   StillWF
